@@ -271,7 +271,10 @@ def other_case(ctx, case, monitors):
     if case.get("reuse") and cfg["env"] not in REUSE_OK:
         case = dict(case, reuse=False)
     name = cfg["env"]
-    env = envzoo.make_other(cfg)
+    # FFSP keeps part of its episode state on the env object (index tables, cursors): probing an action from a retained
+    # TensorDict is not meaningful there (and can make the real episode spin), so it is driven in the default mode only
+    use_torchrl = bool(case.get("torchrl")) and name not in ("dpp", "mdpp", "ffsp")
+    env = envzoo.make_other(dict(cfg, torchrl=True) if use_torchrl else cfg)
     torch.manual_seed(seed)
     td_in = env.generator(batch_size=[B])
     if case.get("family") == "boundary" and name == "smtwtp":
@@ -301,7 +304,10 @@ def other_case(ctx, case, monitors):
     if case.get("reuse"):
         run_episode(env, td_in, list(reversed(names)), torch.Generator().manual_seed(seed + 1), max_steps=case.get("max_steps", 2000), clone_input=False)
         ctx.count("reused_instance_objects")
-    ep = run_episode(env, td_in, names, gen, max_steps=case.get("max_steps", 2000), snap_keys=snap, clone_input=not case.get("reuse"))
+    ep = run_episode(env, td_in, names, gen, max_steps=case.get("max_steps", 2000), snap_keys=snap, clone_input=not case.get("reuse"), peek="last_true" if use_torchrl else None)
+    if use_torchrl:
+        ctx.count("torchrl_mode_episodes")
+        ctx.count("torchrl_lookahead_probes", getattr(ep, "peeks", 0))
     td0 = ep.td0
     T = len(ep.actions)
     ctx.count("episodes")
